@@ -30,6 +30,35 @@ def cl_run(param, geovi, ns):
     return {"samples": core.digest([core.canon(s) for s in sl.iterator()]), "mean": core.digest(core.canon(mean))}
 
 
+def cl_multi_lh(param, geovi):
+    """Several likelihoods on different latent sub-domains: sums of operators with
+    several (domain, target) groups, nested MultiDomains with many string keys."""
+    import numpy as np
+    import nifty.cl as ift
+    dom = ift.UnstructuredDomain(3)
+    ad = {k: ift.FieldAdapter(dom, k) for k in ("alpha", "beta", "gamma", "delta", "epsilon", "zeta")}
+    rng = np.random.default_rng(param)
+    icov = ift.ScalingOperator(dom, 4., sampling_dtype=float)
+
+    def g(op):
+        return ift.GaussianEnergy(ift.makeField(dom, rng.normal(size=3)), inverse_covariance=icov) @ op
+    lh = (g(ad["alpha"]) + g(ad["alpha"] + 0.3 * ad["beta"].exp()) + g(ad["gamma"] * ad["beta"])
+          + g(ad["delta"] + ad["epsilon"]) + g(ad["zeta"].exp() * 0.5 + ad["alpha"]))
+    ic = ift.AbsDeltaEnergyController(1e-6, iteration_limit=10)
+    mini = ift.NewtonCG(ift.AbsDeltaEnergyController(1e-6, iteration_limit=3))
+    kw = {}
+    if geovi:
+        kw["nonlinear_sampling_minimizer"] = ift.NewtonCG(ift.AbsDeltaEnergyController(1e-6, iteration_limit=2))
+    with ift.random.Context(2000 + param):
+        sl, mean = ift.optimize_kl(lh, 2, 2, mini, ic, output_directory=None, return_final_position=True,
+                                   plot_energy_history=False, plot_minisanity_history=False, **kw)
+        ham = ift.StandardHamiltonian(lh, ic, prior_sampling_dtype=float)
+        kl = ift.SampledKLEnergy(mean, ham, 2, None)
+    return {"samples": core.digest([core.canon(s) for s in sl.iterator()]), "mean": core.digest(core.canon(mean)),
+            "kl_value": core.digest(kl.value), "kl_gradient": core.digest(core.canon(kl.gradient)),
+            "metric_sample": core.digest([core.canon(s) for s in kl.samples.iterator()])}
+
+
 def jax_run(param):
     import jax
     jax.config.update("jax_enable_x64", True)
@@ -76,6 +105,8 @@ WORK = {
     "cl_mgvi": lambda p: cl_run(p, False, 2),
     "cl_geovi": lambda p: cl_run(p, True, 1),
     "cl_map": lambda p: cl_run(p, False, 0),
+    "cl_multi_lh": lambda p: cl_multi_lh(p, False),
+    "cl_multi_lh_geovi": lambda p: cl_multi_lh(p, True),
     "jax_vi": jax_run,
     "draws": draws,
 }
